@@ -662,6 +662,13 @@ func runC19(o *opts) error {
 		for _, pg := range grid {
 			emit(&sfNode{kind: "null", col: nullCol, neg: r.chance(50)}, []qSortField{{col: sortCol, asc: r.chance(50)}}, pg)
 		}
+		// (1a) paging parameters at the numeric extremes (c02ExtremePaging: skip / limit next to MaxInt64,
+		// MinInt64 and 2^62, skip+limit exactly MaxInt64 and overflowing): default order and under a sort
+		exSort := []qSortField{{col: r.intn(6), asc: r.chance(50)}}
+		for _, pg := range c02ExtremePaging(int64(n)) {
+			emit(&sfNode{kind: "T"}, nil, pg)
+			emit(&sfNode{kind: "T"}, exSort, pg)
+		}
 		// (1b) every single-key sort in both directions, id-first and 5-key specifications
 		for _, fs := range qSystematicSorts() {
 			emit(&sfNode{kind: "T"}, fs, qPaging{})
